@@ -23,7 +23,7 @@ LEVEL_TEXT = ("Base scenarios with depth-dependent sheared, time-dependent curre
 LEVEL_NOTE = "Equality is on f8 output, so 'bit for bit' is exact. Trusts the row tag column (an int instance variable) to follow the particle (C05)."
 RULE = ("case = base scenario + variant list. Non-trivial: at least one particle placed behind a removed/killed one in the state arrays survives for >= 3 further records "
         "(the cross-talk pattern); distinct by base parameters.")
-MANDATORY = ["float_day_time_axis", "repeat_pairs", "subset_pairs", "added_rows_pairs", "permuted_pairs", "killed_others_pairs", "time_shift_pairs", "deactivated_others_pairs", "death_then_output",
+MANDATORY = ["float_day_time_axis", "repeat_pairs", "subset_pairs", "added_rows_pairs", "permuted_pairs", "killed_others_pairs", "time_shift_pairs", "deactivated_others_pairs", "empty_state_before_late_release_pairs", "death_then_output",
              "trajectory_points_compared", "dense", "sparse", "survivor_behind_removed"]
 ASSUMPTIONS = ["diffusion off (as the property states)"]
 TIMEOUT = {"quick": 900, "thorough": 3400}
@@ -149,7 +149,9 @@ def run_case(case: dict[str, Any], wd: Path) -> dict[str, Any]:
 
     variants = ["repeat", "kill", "subset", "shift", "add", "permute", "deactivate"][: case["nvar"] + 1]
     if case["nvar"] == 4:
-        variants = ["kill", "add", "permute", "shift", "deactivate"] if case["idx"] % 2 else ["repeat", "kill", "subset", "deactivate"]
+        variants = ["kill", "add", "permute", "shift", "deactivate", "late_only"] if case["idx"] % 2 else ["repeat", "kill", "subset", "deactivate", "kill_all_early"]
+    else:
+        variants += ["late_only", "kill_all_early"]
     nontrivial = False
     for var in variants:
         if len(V) > 2:
@@ -191,6 +193,23 @@ def run_case(case: dict[str, Any], wd: Path) -> dict[str, Any]:
                     if len({(p[1], p[2]) for p in pts}) > 1:
                         V.append(C.viol(f"row {v_} was deactivated at step {s} but keeps moving: {pts[:3]}", **desc))
                         break
+        elif var == "late_only":
+            # only the late rows: the state is empty during the first steps (the forcing must keep stepping in time)
+            keep_rows = [r for r in b["rows"] if r["step"] > 0]
+            if keep_rows:
+                o = run("late_only", keep_rows, {})
+                if o:
+                    compare("all rows released at the start removed (state empty until the first late release)", o, [r["rid"] for r in keep_rows], "empty_state_before_late_release_pairs")
+        elif var == "kill_all_early":
+            # everybody present is killed before the late releases arrive: an interval without particles in the middle of the run
+            late_steps = sorted({r["step"] for r in b["rows"] if r["step"] > 1})
+            if late_steps:
+                first_late = late_steps[-1]
+                victims = [r["rid"] for r in b["rows"] if r["step"] < first_late]
+                o = run("kill_all_early", b["rows"], {str(max(0, first_late - 3)): victims})
+                if o:
+                    compare(f"all earlier particles killed at step {max(0, first_late - 3)} (no particle until the release at step {first_late})", o,
+                            [r["rid"] for r in b["rows"] if r["step"] >= first_late], "empty_state_before_late_release_pairs")
         elif var == "subset":
             keep_rows = [r for r in b["rows"] if rng.random() < 0.5] or b["rows"][:1]
             o = run("subset", keep_rows, {})
